@@ -60,8 +60,8 @@ Template(n, now, ds) ==
     [] n = "B3"  -> Batch(A1, D, 1, 5, ts, e1, Sched3(e1 + 3), 3, 1)
     [] n = "B4"  -> Batch(A1, D, Half, 9, ts, e2, <<[t |-> e2 + 2, w |-> D]>>, 1, Half)
     [] n = "B5"  -> Batch(A1, D, Half, 4, ts, e1, <<>>, 3, Half)
-    [] n = "F100" -> Fixed(A1, D, 50, ts, e2, [k \in 1..100 |-> [t |-> e2 + k, w |-> D \div 100]])
-    [] n = "B100" -> Batch(A1, D, 1, 50, ts, e2, [k \in 1..100 |-> [t |-> e2 + 2 * k, w |-> D \div 100]], 2, Half)
+    [] n = "F100" -> Fixed(A1, D, 30, ts, e2, [k \in 1..100 |-> [t |-> e2 + k, w |-> D \div 100]])
+    [] n = "B100" -> Batch(A1, D, 1, 30, ts, e2, [k \in 1..100 |-> [t |-> e2 + 2 * k, w |-> D \div 100]], 2, Half)
     [] n = "B30"  -> Batch(A1, D, 1, 20, ts, e1, <<>>, 30, 1)
     [] n = "Bx"  -> Batch(A1, D, 1, 6, ts, e1, <<[t |-> e1 + 1, w |-> Half], [t |-> e1 + 2, w |-> D - Half]>>, 2, 1)
     [] n = "Bl"  -> Batch(A1, D, Half, 10, ts, e1, Sched3(e1 + 1), 1, 1)
@@ -82,8 +82,15 @@ BadCreates(now) ==
     [F EXCEPT !.sched = <<[t |-> F.end + 1, w |-> Half], [t |-> F.end + 1, w |-> D - Half]>>],    \* two instalments at the same release time
     [B EXCEPT !.sched = <<[t |-> B.end + 2, w |-> Half], [t |-> B.end + 2, w |-> D - Half]>>],
     [F EXCEPT !.sellAmt = 1000000],
+
     [B EXCEPT !.minPrice = 0], [B EXCEPT !.rate = 0],
     [B EXCEPT !.maxExt = 31], [B EXCEPT !.sellDenom = "bad"] }
+
+(* accepted, but unusual: created in the very block of its end time -- open at once, closed by the next block.   *)
+(* Offered in the replayed instances only (KeepHist): in the exhaustive design runs they multiply the states *)
+(* (6.6 M instead of 0.7 M in MC_InvalidF_q) without showing the design anything new.                      *)
+LastMinuteCreates(now) ==
+  { [Template("F0", now, 1) EXCEPT !.start = now - 1, !.end = now], [Template("B0", now, 1) EXCEPT !.start = now - 1, !.end = now] }
 
 Ids(s) == 0..(Len(s.auctions) - 1)
 
@@ -245,7 +252,8 @@ MCInputs0(kind, s, g) ==
     [] kind = "Genesis" -> IF WithGenesis THEN {[a |-> "Genesis"]} ELSE {}
     [] kind = "UpdateParams" -> IF WithParams THEN UpdParams ELSE {}
     [] kind = "Query" -> IF WithQueries THEN Queries(s) ELSE {}
-    [] kind = "OddCreate" -> IF WithInvalid /\ Len(s.auctions) < MaxAuc THEN BadCreates(s.now) ELSE {}
+    [] kind = "OddCreate" -> IF WithInvalid /\ Len(s.auctions) < MaxAuc
+                             THEN BadCreates(s.now) \cup (IF KeepHist /\ s.now <= CreateUntil THEN LastMinuteCreates(s.now) ELSE {}) ELSE {}
     [] kind = "OddBid" -> IF WithInvalid THEN OddBids(s) \cup (GoodBids(s) \ ValidDenomBids(s)) ELSE {}
     [] kind = "OddModify" -> IF WithInvalid THEN OddMods(s) ELSE {}
     [] kind = "OddAllow" -> IF WithInvalid THEN {m \in OddAllow(s) : m.a # "MsgAddAllowed"} ELSE {}
